@@ -6,6 +6,8 @@ import (
 	"fmt"
 	"runtime"
 	"runtime/debug"
+	"sort"
+	"strings"
 	"sync"
 	"testing"
 
@@ -69,6 +71,16 @@ func genHistory(t *rapid.T, label string, allowReject bool, maxBuilds, maxDocs i
 				st.Reject = rapid.SampledFrom(names).Draw(t, sl+"rejectName")
 			}
 		}
+		// every synonym document of this build carries a synonym string no other build of the
+		// history has: its bytes must not show up in the image of any other build
+		for di := range st.Batch.Docs {
+			for fi := range st.Batch.Docs[di].Fields {
+				f := &st.Batch.Docs[di].Fields[fi]
+				if f.Kind == spec.KindSyn && len(f.Syn) > 0 {
+					f.Syn[0].Syns = append(f.Syn[0].Syns, spec.B(stepMarker(label, i)))
+				}
+			}
+		}
 		h.Steps = append(h.Steps, st)
 	}
 	if maxDocs >= 20 && gen.Chance(t, label+"huge", 6) {
@@ -85,8 +97,28 @@ func genHistory(t *rapid.T, label string, allowReject bool, maxBuilds, maxDocs i
 	return h
 }
 
+// stepMarker is the synonym string only build i of history `label` uses.
+func stepMarker(label string, i int) string { return fmt.Sprintf("mark-%s-%02d-syn", label, i) }
+
+// markersOf lists the marker strings occurring in a batch.
+func markersOf(b *spec.BatchSpec) map[string]bool {
+	out := map[string]bool{}
+	for _, d := range b.Docs {
+		for _, f := range d.Fields {
+			for _, def := range f.Syn {
+				for _, x := range def.Syns {
+					if strings.HasPrefix(string(x), "mark-") {
+						out[string(x)] = true
+					}
+				}
+			}
+		}
+	}
+	return out
+}
+
 // runStep builds one batch and checks it against the model of that batch alone.
-func runStep(prop string, st *buildStep, where string) *Violation {
+func runStep(prop string, st *buildStep, where string, foreign ...string) *Violation {
 	want := spec.Expect(st.Batch)
 	var seg segment.Segment
 	err := drive.Safe(func() error {
@@ -133,6 +165,11 @@ func runStep(prop string, st *buildStep, where string) *Violation {
 			v.Signature = "history/" + v.Signature
 			v.Message = where + ": " + v.Message
 			return v
+		}
+		for _, m := range foreign {
+			if bytes.Contains(buf.Bytes(), []byte(m)) {
+				return violation(prop, "history/bytes-of-another-build", "%s: the segment image contains the string %q, which only another build of this history was given", where, m)
+			}
 		}
 		if bw := sb.BytesWritten(); bw > uint64(buf.Len()) {
 			return violation(prop, "history/bytes-written-exceeds-image", "%s: the segment reports %d bytes written, its whole image has %d", where, bw, buf.Len())
@@ -205,7 +242,19 @@ func runHistoryCase(c historyCase) *Violation {
 			return nil
 		}
 		before := zap.VerifInterimPoolNews()
-		v := runStep(prop, st, fmt.Sprintf("build %d of %d", i+1, len(c.Steps)))
+		var foreign []string
+		own := markersOf(st.Batch)
+		for j := range c.Steps {
+			if j != i {
+				for m := range markersOf(c.Steps[j].Batch) {
+					if !own[m] {
+						foreign = append(foreign, m)
+					}
+				}
+			}
+		}
+		sort.Strings(foreign)
+		v := runStep(prop, st, fmt.Sprintf("build %d of %d", i+1, len(c.Steps)), foreign...)
 		if v != nil {
 			return v
 		}
